@@ -76,7 +76,7 @@ func humanizeFloat(v float64, decimals int) string {
 	var buf [64]byte // Operations on the stack
 	s := strconv.AppendFloat(buf[:0], v, 'f', decimals, 64)
 
-	if v > -1000.0 && v < 1000.0 {
+	if v > -999.0 && v < 999.0 { // anything closer to 1000 may round up to it
 		// performance escape hatch when no commas
 		return string(s)
 	}
